@@ -172,6 +172,22 @@ func (x *Exec) tagOf(v Value) string {
 
 func (x *Exec) nondet(tagV Value, w int, kind string) Value {
 	tag := x.tagOf(tagV)
+	if x.eng.fixed != nil {
+		// concrete re-execution of a counterexample
+		i := len(x.nondets)
+		var val uint64
+		if i < len(x.eng.fixed) {
+			val = x.eng.fixed[i].Val
+		}
+		var c *Term
+		if w == 0 {
+			c = x.tc.Bool(val != 0)
+		} else {
+			c = x.tc.Const(w, val)
+		}
+		x.nondets = append(x.nondets, NondetRec{Tag: tag, Kind: kind, Val: val})
+		return c
+	}
 	k := x.nondetSeq[tag]
 	x.nondetSeq[tag] = k + 1
 	name := fmt.Sprintf("nd_%s_%d", tagRe.ReplaceAllString(tag, "_"), k)
